@@ -714,6 +714,11 @@ class Fun(object):
         ys = [n for n in ast.walk(self.fn) if isinstance(n, ast.Yield)]
         stm = [n for n in ast.walk(self.fn) if isinstance(n, ast.Expr) and isinstance(n.value, ast.Yield)]
         need(len(ys) == len(stm), '%s: yield used as an expression' % self.fn.name)
+        # falling off the end returns None: a final top-level `return` /
+        # `return None` is the same program
+        if len(body) > 1 and isinstance(body[-1], ast.Return) \
+                and (body[-1].value is None or is_none(body[-1].value)):
+            body = body[:-1]
         return self.block(body)
 
 
